@@ -8,7 +8,9 @@ use ark_ec::{AffineRepr, CurveGroup, VariableBaseMSM};
 use ark_ff::PrimeField;
 use ark_poly::MultilinearExtension;
 use ark_serialize::serialize_to_vec;
-use ark_std::{marker::PhantomData, rand::RngCore, string::ToString, vec::Vec, UniformRand};
+use ark_std::{
+    format, marker::PhantomData, rand::RngCore, string::ToString, vec::Vec, UniformRand,
+};
 
 use blake2::Blake2s256;
 use digest::Digest;
@@ -446,6 +448,15 @@ where
         // when they are multiplied by the coefficient matrix.
         let l = tensor_prime(point_lower);
         let r = tensor_prime(point_upper);
+
+        let commitments: Vec<_> = commitments.into_iter().collect();
+        if commitments.len() != proof.len() {
+            return Err(Error::IncorrectInputLength(format!(
+                "Expected one proof per commitment: {} commitments, {} proofs",
+                commitments.len(),
+                proof.len()
+            )));
+        }
 
         for (com, h_proof) in commitments.into_iter().zip(proof.iter()) {
             let row_coms = &com.commitment().row_coms;
